@@ -4,7 +4,7 @@ From Coq Require Import String List Arith Bool ZArith Lia Permutation Sorted.
 Import ListNotations.
 Require Import MV.Lib.Base MV.C03.Gen MV.C03.Model MV.C03.Run MV.C03.Proofs_Base MV.C03.Proofs_Simplex
         MV.C03.Proofs_Incidence MV.C03.Proofs_Complete MV.C03.Proofs_Incidence2 MV.C03.Proofs_Border
-        MV.C03.Proofs_Orient MV.C03.Proofs_Maps MV.C03.Proofs_Ring MV.C03.Proofs_Closed.
+        MV.C03.Proofs_Orient MV.C03.Proofs_Maps MV.C03.Proofs_Ring MV.C03.Proofs_Closed MV.C03.Proofs_Sort MV.C03.Proofs_Cover MV.C03.Proofs_EdgeMap MV.C03.Proofs_Surface.
 Local Open Scope nat_scope.
 
 Definition faces_of (cells : list (list nat)) : list (list nat) := complete_faces [] cells.
@@ -126,6 +126,54 @@ Section Main.
     intros Cf E HE. apply (border_faces_around_even cells (faces_of cells) H Hf Cf Hmin E HE).
   Qed.
 
+  (* --- _BoundaryConnectivity: nothing raises, edge maps total and inverse *)
+  Theorem boundary_connectivity_maps pos vs :
+    NoDup vs -> (forall f v, In f bf -> In v (face cells f) -> In v vs) ->
+    exists bfs m,
+      bc_faces cells (faces_of cells) pos (t_f2c (tables cells)) vs bf = Ok bfs
+      /\ bc_edge_map (edges_of cells) (complete_edges [] bfs) vs
+                     (boundary_edges (faces_of cells) (edges_of cells) bf) = Ok m
+      /\ map fst m = boundary_edges (faces_of cells) (edges_of cells) bf
+      /\ (forall b, b < length (complete_edges [] bfs) -> exists e, In (e, b) m)
+      /\ (forall e b, dict_get m e = Some b <-> dict_get (map swap m) b = Some e).
+  Proof.
+    intros ND HV. cbn [tables build t_f2c t_bf] in *.
+    destruct (map_res_total (bc_face cells (faces_of cells) pos (f2c_tab (faces_of cells) (c2f_tab cells (faces_of cells))) vs)
+                (boundary_faces (faces_of cells) (f2c_tab (faces_of cells) (c2f_tab cells (faces_of cells)))))
+      as [bfs Eb].
+    { intros f Hfin. apply (bc_face_total cells (faces_of cells) pos H Hf Hmin vs ND HV f Hfin). }
+    exists bfs.
+    destruct (edge_map_total cells (faces_of cells) (edges_of cells) pos H Hf He Hmin vs ND bfs Eb) as [m [Em [Fm Tm]]].
+    exists m. split; [exact Eb|]. split; [exact Em|]. split; [exact Fm|]. split; [exact Tm|].
+    assert (NDbe : NoDup (boundary_edges (faces_of cells) (edges_of cells)
+                            (boundary_faces (faces_of cells) (f2c_tab (faces_of cells) (c2f_tab cells (faces_of cells))))))
+      by apply NoDup_filter, seq_NoDup.
+    destruct (edge_maps_inverse _ _ _ _ _ (ew_keys _ _ He) NDbe Em) as [_ INV]. exact INV.
+  Qed.
+
+  (* --- closedness of the extracted surfaces *)
+  Theorem extracted_surfaces_closed pos vs sfaces :
+    conforming cells -> NoDup vs ->
+    (bc_faces cells (faces_of cells) pos (t_f2c (tables cells)) vs bf = Ok sfaces
+     \/ ex_faces (faces_of cells) vs bf = Ok sfaces) ->
+    (forall a1 a2 u v, b2m vs a1 = Some u -> b2m vs a2 = Some v -> a1 <> a2 ->
+       Nat.even (length (filter (fun T => subsetb [a1; a2] T) sfaces)) = true)
+    /\ (manifold_boundary cells (faces_of cells) ->
+        forall T a1 a2, In T sfaces -> In a1 T -> In a2 T -> a1 <> a2 ->
+          length (filter (fun T' => subsetb [a1; a2] T') sfaces) = 2).
+  Proof.
+    intros Cf ND E. cbn [tables build t_f2c t_bf] in *.
+    assert (R : Forall2 (fun f T => renumbers vs T (nth f (faces_of cells) []))
+                        (boundary_faces (faces_of cells) (f2c_tab (faces_of cells) (c2f_tab cells (faces_of cells)))) sfaces).
+    { destruct E as [E|E].
+      - now apply (bc_faces_renumber cells (faces_of cells) pos).
+      - apply ex_faces_renumber; [apply (fw_shape _ _ Hf) | | assumption].
+        intros f Hfin. apply (boundary_faces_correct cells (faces_of cells) H Hf Hmin) in Hfin. tauto. }
+    split.
+    - intros a1 a2 u v. now apply (surface_closed cells (faces_of cells) H Hf Cf Hmin vs ND sfaces R).
+    - intros MB. now apply (surface_edges_have_two_faces cells (faces_of cells) H Hf Cf Hmin vs ND sfaces R).
+  Qed.
+
   (* --- standalone extractor: stored order = convention order of a cell containing the face; outward if that cell is positive *)
   Theorem standalone_faces_outward pos f :
     f < length (faces_of cells) ->
@@ -149,22 +197,23 @@ Section Main.
     - intros CP. rewrite <- Ei. now apply convention_faces_outward.
   Qed.
 
-  (* --- ring: what is proved of the rotational sort (see Proofs_Ring.v) *)
-  Theorem edge_walks e start A B p1 p2 :
-    edge cells e = [A; B] -> others (cell cells start) [A; B] = [p1; p2] -> start < length cells ->
-    let f2c := t_f2c (tables cells) in
-    let fuel := S (length cells) in
-    walk cells (faces_of cells) fuel f2c A B [start] start p1 <> Fuel
-    /\ forall cs1 fs1, walk cells (faces_of cells) fuel f2c A B [start] start p1 = Ok (cs1, fs1) ->
-       Sorted (adjacent_around cells (faces_of cells) A B) (start :: cs1) /\ NoDup (start :: cs1)
-       /\ length fs1 = S (length cs1)
-       /\ walk cells (faces_of cells) fuel f2c A B (cs1 ++ [start]) start p2 <> Fuel
-       /\ forall cs2 fs2, walk cells (faces_of cells) fuel f2c A B (cs1 ++ [start]) start p2 = Ok (cs2, fs2) ->
-          Sorted (adjacent_around cells (faces_of cells) A B) (start :: cs2) /\ NoDup (cs2 ++ start :: cs1)
-          /\ length fs2 = S (length cs2).
+  (* --- ring: the rotational sort (Proofs_Ring.v, Proofs_Sort.v, Proofs_Cover.v) *)
+  Theorem edge_ring e start :
+    e < length (edges_of cells) -> In start (nth e (t_e2c (tables cells)) []) ->
+    exists A B b cs fs,
+      edge cells e = [A; B] /\
+      sorted_edge cells (faces_of cells) (edges_of cells) (t_f2c (tables cells))
+                  (nth e (t_e2c (tables cells)) []) (nth e (t_e2f (tables cells)) []) e start = Ok (b, cs, fs)
+      /\ Permutation cs (nth e (t_e2c (tables cells)) []) /\ Permutation fs (nth e (t_e2f (tables cells)) [])
+      /\ (b = true -> NoDup cs /\ Sorted (adjacent_around cells (faces_of cells) A B) cs /\ In start cs)
+      /\ (conforming cells -> link_connected cells (faces_of cells) A B (nth e (t_e2c (tables cells)) []) -> b = true).
   Proof.
-    intros E O L. cbn [tables build t_f2c].
-    apply (edge_walks_rotational cells (faces_of cells) (edges_of cells) H Hf e start A B p1 p2 E O L).
+    intros L Hs. cbn [tables build t_f2c t_e2c t_e2f] in *.
+    destruct (edge_ring_sorted cells (faces_of cells) (edges_of cells) H Hf He e start L Hs)
+      as [A [B [b [cs [fs [EE [SE [P1 [P2 SO]]]]]]]]].
+    exists A, B, b, cs, fs. repeat (split; [assumption|]).
+    intros Cf LC.
+    apply (edge_ring_covered cells (faces_of cells) (edges_of cells) H Hf He Cf Hmin e start A B L Hs EE LC b cs fs SE).
   Qed.
 End Main.
 
@@ -198,31 +247,25 @@ Proof. vm_compute. reflexivity. Qed.
 Example two_tets_is_a_conforming_tet_mesh : tet_mesh two_tets_on_an_edge /\ conforming two_tets_on_an_edge.
 Proof. split; [apply tet_meshb_spec|apply conformingb_spec]; vm_compute; reflexivity. Qed.
 
-(* ------------------------------------------------------------------ REFUTED: rotational sorting on every conforming mesh.
-   Full statement that is false of the faithful model (and of the code):
-     forall cells, tet_mesh cells -> conforming cells -> forall e < |edges|, forall start in edge_to_cell(e),
-       sorted_edge ... e start = Ok _ .
-   Witness: two tetrahedra sharing only an edge; for that edge every start cell makes the sort raise (KeyError). *)
-Theorem edge_ring_nonmanifold_refuted :
-  exists cells, tet_mesh cells /\ conforming cells /\
-    exists e, e < length (edges_of cells) /\ nth e (t_e2c (tables cells)) [] <> [] /\
-      forall start, In start (nth e (t_e2c (tables cells)) []) ->
-        sorted_edge cells (faces_of cells) (edges_of cells) (t_f2c (tables cells))
-                    (nth e (t_e2c (tables cells)) []) (nth e (t_e2f (tables cells)) []) e start = Exn.
-Proof.
-  exists two_tets_on_an_edge. split; [apply two_tets_is_a_conforming_tet_mesh|].
-  split; [apply two_tets_is_a_conforming_tet_mesh|].
-  exists 5. split; [vm_compute; lia|]. split; [vm_compute; discriminate|].
-  assert (E : nth 5 (t_e2c (tables two_tets_on_an_edge)) [] = [0; 1]) by (vm_compute; reflexivity).
-  rewrite E. intros start [<-|[<-|[]]]; vm_compute; reflexivity.
-Qed.
+(* ------------------------------------------------------------------ the former known finding (repaired by e464500):
+   two tetrahedra sharing only an edge - the cells of that edge are not face-connected, the lists are left unsorted,
+   nothing is raised *)
+Example two_tets_edge_left_unsorted :
+  forallb (fun s => match sorted_edge two_tets_on_an_edge (faces_of two_tets_on_an_edge) (edges_of two_tets_on_an_edge)
+                                  (t_f2c (tables two_tets_on_an_edge)) (nth 5 (t_e2c (tables two_tets_on_an_edge)) [])
+                                  (nth 5 (t_e2f (tables two_tets_on_an_edge)) []) 5 s with
+                    | Ok (false, [0; 1], [2; 3; 6; 7]) => true
+                    | _ => false
+                    end) (nth 5 (t_e2c (tables two_tets_on_an_edge)) []) = true
+  /\ nth 5 (t_e2c (tables two_tets_on_an_edge)) [] = [0; 1].
+Proof. vm_compute. split; reflexivity. Qed.
 
 (* on an edge whose cells are face-connected the same function succeeds and returns the ring *)
 Example cube5_interior_edges_sort :
   forallb (fun e => match nth e (t_e2c (tables cube5)) [] with
                     | s :: _ => match sorted_edge cube5 (faces_of cube5) (edges_of cube5) (t_f2c (tables cube5))
                                                  (nth e (t_e2c (tables cube5)) []) (nth e (t_e2f (tables cube5)) []) e s with
-                                | Ok (cs, fs) => (length fs =? S (length cs)) || (length fs =? length cs)
+                                | Ok (true, cs, fs) => (length fs =? S (length cs)) || (length fs =? length cs)
                                 | _ => false
                                 end
                     | [] => false
